@@ -133,6 +133,8 @@ def access_family(run, replay=None):
     nontrivial = len(set(canon_word(b['steps']) for b in behs if any(s.get('exp') not in ('HttpError', 'Refused', 'BadRequest', 'Any', 'none') for s in b['steps'])))
     cov = mc_summary(run)
     cov.update(stats)
+    if not replay and run.tier == 'thorough':
+        cov['binding_selftest'] = binding_selftest(run, 'AccessTrace', lines, viols, CORRUPTIONS['access'])
     cov.update(dict(
         traces_validated_against_impl=len(behs),
         evaluations=sum(1 for x in lines if x.get('ev') in ('step', 'probe')),
@@ -248,6 +250,8 @@ def pairsetup_family(run, replay=None):
     drift = sum(1 for x in lines if x.get('ev') == 'msg' and x.get('skipped'))
     cov = mc_summary(run)
     cov.update(stats)
+    if not replay and run.tier == 'thorough':
+        cov['binding_selftest'] = binding_selftest(run, 'PairSetupTrace', lines, viols, CORRUPTIONS['pairsetup'])
     cov.update(dict(
         traces_validated_against_impl=len(behs),
         evaluations=sum(1 for x in lines if x.get('ev') == 'msg'),
@@ -281,7 +285,88 @@ CHECK_DEADLOCK FALSE
 ''' % (tla_set(conn), tla_set(chars), tla_set(weak), consts, tail)
 
 
-def generic_family(run, replay, *, hcv, trace_mod, gen, rules, level, assumptions, rule_text, nontrivial, sanity=None, extra_cov=None, fpfun=None, pseudo=()):
+def _first(lines, pred):
+    for k, x in enumerate(lines):
+        if pred(x):
+            return k
+    return None
+
+
+def _corrupt(pred, change):
+    """corruption = find the first line satisfying pred and apply change(line) to a copy of it"""
+    def f(lines):
+        k = _first(lines, pred)
+        if k is None:
+            return None
+        out = list(lines)
+        x = json.loads(json.dumps(lines[k]))
+        change(x)
+        out[k] = x
+        return out
+    return f
+
+
+# family -> [(what is corrupted, function(lines) -> corrupted lines or None, rule that must fire)]
+# Demonstrates that the monitors bind: a recorded trace with ONE falsified field must be rejected by the named rule.
+CORRUPTIONS = {
+    'access': [('an unverified connection probed as encrypted', _corrupt(lambda x: x.get('ev') == 'probe' and x.get('c', '').startswith('e') and x.get('mode') == 'plain', lambda x: x.update(mode='enc')), 'VerifiedRule'),
+               ('a refused protected request recorded as served', _corrupt(lambda x: x.get('ev') == 'step' and x.get('a') == 'Req' and x.get('c', '').startswith('e') and x.get('class') == 'Refused', lambda x: x.update({'class': 'Served'})), 'GateRule'),
+               ('an EVENT on an unverified connection', _corrupt(lambda x: x.get('ev') == 'probe' and x.get('c', '').startswith('e') and x.get('mode') == 'plain', lambda x: x.update(events=1)), 'OnlyVerifiedGetEvents')],
+    'pairsetup': [('a stored pairing after a start message', _corrupt(lambda x: x.get('ev') == 'msg' and x.get('m', {}).get('t') == 'Start', lambda x: x.update(store=x['store'] + ['zz'])), 'StoreRule')],
+    'notify': [('one delivered EVENT removed', _corrupt(lambda x: x.get('ev') == 'act' and len(x.get('got', [])) == 1, lambda x: x.update(got=[])), 'ExactlyOnce'),
+               ('one EVENT duplicated', _corrupt(lambda x: x.get('ev') == 'act' and len(x.get('got', [])) == 1, lambda x: x.update(got=x['got'] * 2)), 'ExactlyOnce')],
+    'secchan': [('an altered stream recorded without error', _corrupt(lambda x: x.get('err') and x.get('nrel') == 0 and len(x.get('wire', [])) == 1, lambda x: x.update(err=False)), 'DetectRule')],
+    'framing': [('an extra frame', _corrupt(lambda x: x.get('ev') == 'enc' and x.get('n', 0) > 0, lambda x: x.update(frames=x['frames'] + [1])), 'WireFormat')],
+    'connread': [('one byte too many returned', _corrupt(lambda x: x.get('ev') == 'ret' and x.get('n', 0) > 0, lambda x: x.update(ok=False)), 'ExactBytes'),
+                 ('a spurious EOF', _corrupt(lambda x: x.get('ev') == 'ret' and x.get('err') == 'none', lambda x: x.update(err='eof')), 'NoSpuriousEOFOrError')],
+    'charstack': [('a read that does not return the current value', _corrupt(lambda x: x.get('a') == 'RemoteRead' and x.get('rtoks'), lambda x: x.update(rtoks=[])), 'ReadsSeeLastWrite'),
+                  ('an EVENT for a characteristic without ev permission', _corrupt(lambda x: x.get('a') == 'LocalSet' and 'ev' not in x.get('perms', []), lambda x: x.update(events=1)), 'NoEventsWithoutEv'),
+                  ('a 207 entry without status', _corrupt(lambda x: x.get('ev') == 'list' and x.get('http') == 207 and True in x.get('values', []), lambda x: x.update(statuses=[False] * len(x['statuses']))), 'ShapeRule')],
+    'charcell': [('a stored value of a foreign type', _corrupt(lambda x: x.get('ev') == 'upd' and x.get('dyn') == x.get('fmt'), lambda x: x.update(dyn='other')), 'TypeOK'),
+                 ('a remote write changing a non-writable cell', _corrupt(lambda x: x.get('a') == 'Update' and x.get('remote') and 'pw' not in x.get('perms', []), lambda x: x.update(changed=True)), 'NoWriteWithoutPw')],
+    'robust': [('a handler panic', _corrupt(lambda x: x.get('ev') == 'mal', lambda x: x.update(panics=1)), 'NoPanic'),
+               ('a failed follow-up handshake', _corrupt(lambda x: x.get('ev') == 'mal', lambda x: x.update(newOK=False)), 'Recovers')],
+    'honest': [('M6 box not opening under PS-Msg06', _corrupt(lambda x: x.get('name') == 'M6', lambda x: x.update(opens='none')), 'Crypto'),
+               ('V4 framed as ciphertext', _corrupt(lambda x: x.get('name') == 'V4', lambda x: x.update(framed='enc')), 'V4Plain')],
+    'ids': [('a duplicated accessory id', _corrupt(lambda x: len(x.get('aids', [])) >= 2, lambda x: x.update(aids=[x['aids'][0]] * len(x['aids']))), 'UniqueRule')],
+    'tlv8': [('a fragment of 256 bytes', _corrupt(lambda x: x.get('ev') == 'set' and x.get('len') == 256, lambda x: x.update(frags=[256])), 'WellFragmented'),
+             ('an invented byte', _corrupt(lambda x: x.get('ev') == 'parse' and x.get('ok') and x.get('vals') and x['vals'][0], lambda x: x['vals'].__setitem__(0, x['vals'][0] + [7])), 'NoInventedBytes')],
+    'tlvstruct': [('a dropped item', _corrupt(lambda x: x.get('ev') == 'marshal' and len(x.get('items', [])) >= 2, lambda x: x.update(items=x['items'][1:])), 'Structure')],
+    'storage': [('a read returning another value', _corrupt(lambda x: x.get('op') == 'Get' and x.get('ret') in ('long', 'mid', 'short'), lambda x: x.update(ret='other')), 'MapRule')],
+    'storagecrash': [('a mixture read after a kill', _corrupt(lambda x: x.get('ev') == 'crash' and x.get('killed'), lambda x: x.update(reads='other')), 'AtomicRule')],
+    'lifecycle': [('sf not following the pairings', _corrupt(lambda x: x.get('running') and x.get('a') == 'pair' and x.get('ok'), lambda x: x.update(sf=1)), 'SfRule'),
+                  ('a new device id after a restart', _corrupt(lambda x: x.get('a') == 'start' and x.get('i', 0) > 0 and not x.get('skipped'), lambda x: x.update(id='00:00:00:00:00:00')), 'IdentityStable')],
+    'connwrite': [],
+    'e2e': [('a refused request recorded as served', _corrupt(lambda x: x.get('ev') == 'step' and x.get('a') in ('Read', 'Write', 'Sub') and x.get('res') == 'refused', lambda x: x.update(res='ok')), 'E2E-Gate'),
+            ('a refused verification recorded as accepted', _corrupt(lambda x: x.get('ev') == 'step' and x.get('a') == 'Verify' and x.get('res') == 'refused', lambda x: x.update(res='ok')), 'E2E-Verify'),
+            ('a delivered EVENT removed', _corrupt(lambda x: x.get('ev') == 'step' and x.get('got'), lambda x: x.update(got=[])), 'E2E-Events'),
+            ('discoverable while paired', _corrupt(lambda x: x.get('ev') == 'step' and x.get('running') and x.get('sf') == 0, lambda x: x.update(sf=1)), 'E2E-Sf'),
+            ('a pairing lost over a restart', _corrupt(lambda x: x.get('ev') == 'step' and x.get('a') == 'Start' and x.get('paired'), lambda x: x.update(paired=[])), 'E2E-Pairings')],
+}
+
+
+def binding_selftest(run, trace_mod, lines, viols, corruptions):
+    """Thorough tier: falsify one recorded field at a time and require the monitor to reject the trace with the named rule."""
+    results = []
+    already = set(v[0] for v in viols)
+    for what, fn, rule in corruptions:
+        bad = fn(lines)
+        if bad is None:
+            results.append(dict(corruption=what, rule=rule, applied=False))
+            continue
+        path = os.path.join(run.dir, 'selftest.ndjson')
+        with open(path, 'w') as f:
+            for x in bad:
+                f.write(json.dumps(x) + '\n')
+        v2, _, _ = run.validate(trace_mod, trace_mod + '.cfg', path)
+        fired = any(v[0] == rule for v in v2) and (rule not in already or len([v for v in v2 if v[0] == rule]) > len([v for v in viols if v[0] == rule]))
+        results.append(dict(corruption=what, rule=rule, applied=True, rejected=fired))
+        if not fired:
+            raise ToolTrouble('binding self-test failed: the trace with "%s" was not rejected by rule %s' % (what, rule))
+    return results
+
+
+def generic_family(run, replay, *, hcv, trace_mod, gen, rules, level, assumptions, rule_text, nontrivial, sanity=None, extra_cov=None, fpfun=None, pseudo=(), corruptions=None):
     """Common pipeline: model check + generate (callback) -> harness -> trace validation -> verdict."""
     bpath = os.path.join(run.dir, 'beh.ndjson')
     if replay:
@@ -318,6 +403,7 @@ def generic_family(run, replay, *, hcv, trace_mod, gen, rules, level, assumption
 
     if sanity and not replay:
         sanity(lines, behs)
+    selftest = binding_selftest(run, trace_mod, lines, viols, corruptions or CORRUPTIONS.get(hcv, [])) if (not replay and run.tier == 'thorough') else None
     cov = mc_summary(run)
     cov.update(stats)
     cov.update(dict(
@@ -330,6 +416,8 @@ def generic_family(run, replay, *, hcv, trace_mod, gen, rules, level, assumption
     ))
     if extra_cov:
         cov.update(extra_cov(lines, behs))
+    if selftest is not None:
+        cov['binding_selftest'] = selftest
     return finish(run, level, rules, behs, lines, viols, cov, assumptions, hcv, confirm=confirm, fpfun=fpfun)
 
 
@@ -733,7 +821,7 @@ def storagecrash_family(run, replay=None):
 # Lifecycle + SetupCode (C20)
 # =====================================================================================================
 
-LC_GUARDS = ["uuid_loaded", "keypair_loaded", "hash_ignores_values", "version_bumped", "sf_from_pairings", "sf_updated_on_pair", "sf_updated_on_unpair"]
+LC_GUARDS = ["own_key_not_a_pairing", "uuid_loaded", "keypair_loaded", "hash_ignores_values", "version_bumped", "sf_from_pairings", "sf_updated_on_pair", "sf_updated_on_unpair"]
 LC_RULES = {'IdentityStable': 'C20', 'SfRule': 'C20', 'CnumRule': 'C20', 'PairingsPersist': 'C20', 'ActionAccepted': 'C20', 'PinRule': 'C20', 'UriRule': 'C20'}
 
 
@@ -1183,3 +1271,95 @@ def catalog_family(run, replay=None):
     return finish(run, 'other', {}, behs, lines, viols, cov,
                   ['constructors are found by a regular-expression scan of the gofmt-formatted sources (exported New* functions with the known argument shapes)',
                    'numbers are compared as canonical decimal strings (TLC has no reals)'], 'catalog', fpfun=fp)
+
+
+# =====================================================================================================
+# End-to-end composition (Accessory.tla): an extra stage of C01, C03, C10 and C20
+# =====================================================================================================
+
+E2E_RULES = {'E2E-Verify': 'C03', 'E2E-Gate': 'C01', 'E2E-Events': 'C10', 'E2E-Sf': 'C20', 'E2E-Pairings': 'C20', 'E2E-Pair': 'C04'}
+E2E_GUARDS = ["verify_needs_stored_key", "authenticate_checks_verified", "skip_originator", "sf_updated_on_unpair", "sf_from_pairings", "sf_updated_on_pair"]
+E2E_CODE_WEAK = ["sessions_of_removed_pairing_closed"]
+
+
+def e2e_cfg(conn, weak=(), tail='', consts=''):
+    return 'CONSTANTS\n  Conn = %s\n  Ctrl = {"a", "b"}\n  Weak = %s\n  %s\nCHECK_DEADLOCK FALSE\n%s\n' % (tla_set(conn), tla_set(list(E2E_CODE_WEAK) + list(weak)), consts, tail)
+
+
+def e2e_gen(run):
+    thorough = run.tier == 'thorough'
+    run.model_check('Accessory', 'Accessory_MC.cfg', workers=8)
+    t = 'INIT GInit\nNEXT GNext\n'
+    edge = dedupe_prefixes(run.generate('AccessoryGen', cfgtext=e2e_cfg(["k1", "k2"], tail=t + 'INVARIANT EmitEdge\nVIEW EdgeView'), timeout=1200))
+    nedge = len(edge)
+    edge = sample(edge, 2500 if thorough else 90, run.seed)
+    attacks = []
+    for g in E2E_GUARDS:
+        a = run.generate('AccessoryGen', cfgtext=e2e_cfg(["k1", "k2", "k3"], weak=[g], tail=t + 'INVARIANT NoAttack\nVIEW AttackView'), expect_violation=True)
+        if not a:
+            raise ToolTrouble('no attack word for guard %s' % g)
+        attacks.append((g, a[0]))
+    depth = 14 if thorough else 10
+    sim = run.generate('AccessoryGen', cfgtext=e2e_cfg(["k1", "k2", "k3"], consts='SimLen = %d' % depth, tail=t + 'INVARIANT EmitSim'),
+                       simulate='num=%d' % (6000 if thorough else 400), heap='2g', timeout=1200, depth=depth + 1)
+    sim = sample(sim, 400 if thorough else 24, run.seed)
+    groups = [('edge', edge)] + [('attack:' + g, [a]) for g, a in attacks] + [('sim', sim)]
+    return groups, dict(edge_words_enumerated=nedge, edge_words=len(edge), attack_words=len(attacks), sim_words=len(sim), sim_depth=depth)
+
+
+def e2e_family(run, replay=None):
+    def sanity(lines, behs):
+        st = [x for x in lines if x.get('ev') == 'step' and not x.get('skipped')]
+        need = dict(pairings=sum(1 for x in st if x['a'] == 'Pair' and x['res'] == 'ok'), verifications=sum(1 for x in st if x['a'] == 'Verify' and x['res'] == 'ok'),
+                    refused_verifications=sum(1 for x in st if x['a'] == 'Verify' and x['res'] == 'refused'), events=sum(len(x.get('got', [])) for x in st),
+                    removals=sum(1 for x in st if x['a'] == 'Remove' and x['res'] == 'ok'), restarts=sum(1 for x in st if x['a'] == 'Start'),
+                    refused_requests=sum(1 for x in st if x['a'] in ('Read', 'Write', 'Sub') and x['res'] == 'refused'))
+        for k, v in need.items():
+            if v == 0:
+                raise ToolTrouble('vacuous end-to-end run: no %s observed' % k)
+
+    def extra(lines, behs):
+        st = [x for x in lines if x.get('ev') == 'step' and not x.get('skipped')]
+        return dict(e2e_pairings_via_pair_setup=sum(1 for x in st if x['a'] == 'Pair' and x['res'] == 'ok'), e2e_verifications=sum(1 for x in st if x['a'] == 'Verify' and x['res'] == 'ok'),
+                    e2e_refused_verifications=sum(1 for x in st if x['a'] == 'Verify' and x['res'] == 'refused'), e2e_events=sum(len(x.get('got', [])) for x in st),
+                    e2e_removals=sum(1 for x in st if x['a'] == 'Remove' and x['res'] == 'ok'), e2e_restarts=sum(1 for x in st if x['a'] == 'Start'),
+                    e2e_refused_requests=sum(1 for x in st if x['res'] == 'refused' and x['a'] not in ('Pair', 'Verify')), e2e_steps_skipped=sum(1 for x in lines if x.get('skipped')))
+    return generic_family(run, replay, hcv='e2e', trace_mod='AccessoryTrace', gen=e2e_gen, rules=E2E_RULES, level='model_checking',
+                          assumptions=['end-to-end histories: real pair-setup with the setup code, real pair-verify, encrypted sessions, /pairings removal, real ip transport stop and restart on one storage directory; two controllers, up to three connections',
+                                       'named deviation of the code from HAP (sessions of a removed pairing stay verified) is part of the model as a missing guard, and no listed property speaks about it',
+                                       'EVENTs are attributed to an action by fencing every open connection with its own request / response after the action'],
+                          rule_text='TLC-generated histories of the top-level composition Accessory.tla (one word per model transition with its pre-state, sampled; one attack history per named guard; simulation words)',
+                          nontrivial=lambda b: len(set(s.get('a') for s in b['steps'])) >= 3, sanity=sanity, extra_cov=extra)
+
+
+def with_e2e(base):
+    """The property's own family, then the end-to-end composition stage; one verdict, one evidence file."""
+    def fam(run, replay=None):
+        if replay:
+            return e2e_family(run, replay=replay) if replay.get('family') == 'e2e' else base(run, replay=replay)
+        if os.environ.get('VERIF_STAGE') == 'e2e':      # development aid: the end-to-end stage alone
+            return e2e_family(run)
+        rc1 = base(run)
+        epath = os.path.join(ROOT, 'evidence', '%s.json' % run.prop)
+        ev1 = json.load(open(epath))
+        run.mc = []
+        notes, run.notes = run.notes, []
+        rc2 = e2e_family(run)
+        ev2 = json.load(open(epath))
+        c1, c2 = ev1['coverage'], ev2['coverage']
+        c1['end_to_end_part'] = {k: v for k, v in c2.items() if k not in ('samples',)}
+        for k in ('states', 'transitions', 'traces_validated_against_impl', 'evaluations', 'trace_lines'):
+            if isinstance(c1.get(k), (int, float)) and isinstance(c2.get(k), (int, float)):
+                c1[k] += c2[k]
+        ev1['assumptions'] = list(ev1.get('assumptions', [])) + ['end-to-end stage: ' + a for a in ev2.get('assumptions', [])[:1]]
+        ev1['violations'] = ev1.get('violations', 0) + ev2.get('violations', 0)
+        ev1['wall_s'] = round(time.time() - run.t0, 2)
+        with open(epath, 'w') as f:
+            json.dump(ev1, f, indent=1)
+        return max(rc1, rc2)
+    fam.__name__ = base.__name__ + '_with_e2e'
+    return fam
+
+
+for _p in ('C01', 'C03', 'C10', 'C20'):
+    REGISTRY[_p] = with_e2e(REGISTRY[_p])
